@@ -3,6 +3,7 @@ package main
 import (
 	"fmt"
 	"go/token"
+	"os"
 	"regexp"
 	"strings"
 
@@ -437,4 +438,66 @@ func init() {
 	register("C09", "R2", "K1", "adjacent / non-adjacent / backwards verification ensure their full check lists; Verify dispatches correctly; trust level bounded", 30, ruleLightVerifiers)
 	register("C09", "R3", "K1+K8+K2", "witness cross-check: success only through a matching witness; exactly one verdict per witness; attack error only after evidence; divergence exits", 14, ruleLightDetector)
 	register("C09", "R8", "K1+K11", "commit verification used by the light client (same rule as C07.R1)", 26, ruleCommitTally)
+}
+
+// ------------------------------------------------------------------ C09.R4
+// The examination of a conflicting header may give up (return an error, which makes the caller drop the
+// witness instead of reporting an attack) only for the reasons confirmed by reading: each error return's
+// necessary branch conditions must come from this table. A strengthened or inverted sanity check shows up
+// as a condition outside it.
+func init() {
+	register("C09", "R4", "K11", "divergence examination gives up only for the listed reasons (an extra or tightened failure condition lets a witness's conflicting header go unreported)", 6, func(c *Ctx) {
+		w := c.W
+		f := c.fn("light", "Client.examineConflictingHeaderAgainstTrace")
+		if f == nil {
+			return
+		}
+		fk := funcKey(f)
+		idxRe := regexp.MustCompile(fwdIdx)
+		isAllowed := func(s string) bool {
+			s = idxRe.ReplaceAllString(s, "IDX")
+			for _, re := range c09ExamineAllowed {
+				if re.MatchString(s) {
+					return true
+				}
+			}
+			return false
+		}
+		dump := os.Getenv("TMVERIF_C09_DUMP") != ""
+		n := 0
+		for _, r := range returnsOf(f) {
+			ret := r.(*ssa.Return)
+			if isNilConst(ret.Results[2]) {
+				continue
+			}
+			n++
+			nec := w.necessaryAtoms(f, ret)
+			var extra []string
+			for _, s := range nec {
+				if dump {
+					fmt.Printf("C09DUMP %s %q\n", w.ipos(ret), s)
+				}
+				if !isAllowed(s) {
+					extra = append(extra, s)
+				}
+			}
+			c.Check(len(extra) == 0, fmt.Sprintf("%s :: failure exit #%d only for a listed reason", fk, n), w.ipos(ret), fmt.Sprintf("%d necessary conditions, all listed", len(nec)), "the examination also gives up when ["+strings.Join(extra, " ; ")+"]: the witness is then dropped and its conflicting header is never reported")
+		}
+		c.Check(n >= 5, fk+" :: failure exits found", w.pos(f.Pos()), fmt.Sprintf("%d", n), fmt.Sprintf("only %d failure exits", n))
+	})
+}
+
+// confirmed by reading light/detector.go against the detection algorithm (ADR-047): the examination fails
+// when the target is below the trusted height, on a forward-lunatic trace block whose time is *after* the
+// target's, when the source cannot back its own intermediate headers (LightBlock / verifySkipping errors),
+// when the first trace block differs from the source's, and when the trace is exhausted.
+var c09ExamineAllowed = []*regexp.Regexp{
+	regexp.MustCompile(`^targetBlock\.SignedHeader\.Header\.Height (<|>=|!=) trace\[(0|IDX)\]\.SignedHeader\.Header\.Height$`),
+	regexp.MustCompile(`^IDX (<|>=) len\(trace\)$`),
+	regexp.MustCompile(`^IDX (==|!=) 0$`),
+	regexp.MustCompile(`^(true|false)\(trace\[IDX\]\.SignedHeader\.Header\.Time\.After\(targetBlock\.SignedHeader\.Header\.Time\)\)$`),
+	regexp.MustCompile(`^nonnil\(c\.verifySkipping\(.*\)#1\)$`),
+	regexp.MustCompile(`^nonnil\(source\.LightBlock\(ctx, trace\[IDX\]\.SignedHeader\.Header\.Height\)#1\)$`),
+	regexp.MustCompile(`^.*\.SignedHeader\.Header\.Height != targetBlock\.SignedHeader\.Header\.Height$`),
+	regexp.MustCompile(`^false\(bytes\.Equal\(.*\.Hash\(\), trace\[IDX\]\.SignedHeader\.Header\.Hash\(\)\)\)$`),
 }
